@@ -85,6 +85,15 @@ def thorough_checks(S, mod, prop, seed):
         out.append({'what': 'native battery of %s against %s' % (
             prop, S.interp.repo), 'kind': 'battery', 'result': r,
             'seconds': round(time.time() - t0, 1), 'counts_as_proof': False})
+    try:
+        from contracts import leafcheck
+        t1 = time.time()
+        r = leafcheck.all_leaves(S.interp.repo, leafcheck.leaves_of_session(S))
+        out.append({'what': r['what'], 'kind': 'battery', 'result': r,
+                    'seconds': round(time.time() - t1, 1), 'counts_as_proof': False})
+    except Exception:
+        out.append({'what': 'leaf oracles', 'kind': 'battery', 'confirmed': False,
+                    'error': traceback.format_exc()[-800:], 'counts_as_proof': False})
     for fn, props in ((validate.posixpath_models, None),
                       (validate.quote_models, ('C02', 'C03', 'C09', 'C20', 'C12')),
                       (validate.datetime_models, ('C03', 'C10', 'C09', 'C20', 'C02')),
